@@ -262,12 +262,12 @@ func rulePHLINEAR(c *Ctx, r *Report) {
 	nLeaf := 0
 	for _, row := range rows {
 		typ := "default"
-		for _, a := range row.P.Atoms {
+		for _, a := range row.Atoms {
 			if a.Kind == "type" && a.Pos && a.Subj == "$1" {
 				typ = a.Val
 			}
 		}
-		if typ == "*expr.Expression" || typ == "[]*expr.Expression" || typ == "*expr.RangeBoundary" || hasAtom(row.P.Atoms, "$1==nil") {
+		if typ == "*expr.Expression" || typ == "[]*expr.Expression" || typ == "*expr.RangeBoundary" || hasAtom(row.Atoms, "$1==nil") {
 			continue
 		}
 		nLeaf++
@@ -436,9 +436,16 @@ func ruleSIBRANGE(c *Ctx, r *Report) {
 	tab := func(rt *rangeTable) map[string]string {
 		m := map[string]string{}
 		for _, row := range rt.Rows {
-			for _, mo := range dims(row.MinOpen) {
-				for _, xo := range dims(row.MaxOpen) {
-					m[fmt.Sprintf("%s|excl=%v|minOpen=%v|maxOpen=%v", row.Stage, row.Excl == 1, mo, xo)] = row.Skel
+			for _, ex := range dims(row.Excl) {
+				for _, mo := range dims(row.MinOpen) {
+					for _, xo := range dims(row.MaxOpen) {
+						k := fmt.Sprintf("%s|excl=%v|minOpen=%v|maxOpen=%v", row.Stage, ex, mo, xo)
+						// a path that determines the dimension takes precedence over one that leaves it open
+						if _, have := m[k]; have && (row.Excl == -1 || row.MinOpen == -1 || row.MaxOpen == -1) {
+							continue
+						}
+						m[k] = row.Skel
+					}
 				}
 			}
 		}
@@ -578,50 +585,37 @@ func ruleSIBLIKE(c *Ctx, r *Report) {
 	if len(par) == 0 {
 		r.bad(rule, "param|extract", "-", "the parameterized like function has no regexp path")
 	}
-	// the rewrite applied to the pattern must be the same chain of replacements on both sides
-	chain := func(k string) string {
-		// strip the innermost operand: keep only the ReplaceAll(…,"x","y") wrappers
-		var ops []string
-		for strings.HasPrefix(k, "strings.ReplaceAll(") && strings.HasSuffix(k, ")") {
-			inner := k[len("strings.ReplaceAll(") : len(k)-1]
-			// last two arguments are quoted constants
-			j := strings.LastIndex(inner, ",\"")
-			if j < 0 {
-				break
-			}
-			i2 := strings.LastIndex(inner[:j], ",\"")
-			if i2 < 0 {
-				break
-			}
-			ops = append(ops, inner[i2+1:])
-			k = inner[:i2]
-		}
-		return strings.Join(ops, " ← ")
-	}
+	// the rewrite applied to the pattern must be the same on both sides (canonical rewrite descriptor)
 	inlineChain, paramChain := "", ""
 	if e := pt.Eff["expr.Like"]; e != nil && e.Fn != nil {
 		rows, _ := c.successSkeletons(e.Fn)
 		for _, row := range rows {
 			for _, sg := range row.Skel {
-				if !sg.isLit() && strings.HasPrefix(sg.Hole, "strings.ReplaceAll(") {
-					inlineChain = chain(sg.Hole)
+				if !sg.isLit() && strings.HasPrefix(sg.Hole, "rewrite[") {
+					inlineChain = sg.Hole[:strings.Index(sg.Hole, "]")+1]
+				} else if !sg.isLit() && strings.Contains(sg.Hole, "Replace") {
+					inlineChain = "non-canonical: " + sg.Hole
 				}
 			}
 		}
 	}
 	for _, b := range dr.RenderParam.Blocks {
 		for _, in := range b.Instrs {
-			if st, ok := in.(*ssa.Store); ok {
-				if k := c.key(st.Val, nil); strings.HasPrefix(k, "strings.ReplaceAll(") {
-					if _, isIdx := st.Addr.(*ssa.IndexAddr); isIdx {
-						paramChain = chain(k)
-					}
-				}
-				if mi, ok := st.Val.(*ssa.MakeInterface); ok {
-					if k := c.key(mi.X, nil); strings.HasPrefix(k, "strings.ReplaceAll(") {
-						paramChain = chain(k)
-					}
-				}
+			st, ok := in.(*ssa.Store)
+			if !ok {
+				continue
+			}
+			if _, isIdx := st.Addr.(*ssa.IndexAddr); !isIdx {
+				continue
+			}
+			val := st.Val
+			if mi, ok := val.(*ssa.MakeInterface); ok {
+				val = mi.X
+			}
+			if _, desc, ok := c.rewriteOf(val, nil); ok {
+				paramChain = desc
+			} else if strings.Contains(c.key(val, nil), "Replace") {
+				paramChain = "non-canonical: " + c.key(val, nil)
 			}
 		}
 	}
@@ -630,7 +624,7 @@ func ruleSIBLIKE(c *Ctx, r *Report) {
 	} else if inlineChain == paramChain {
 		r.ok(rule, "rewrite-chain", c.pos(dr.RenderParam.Pos()), inlineChain)
 	} else {
-		r.bad(rule, "rewrite-chain", c.pos(dr.RenderParam.Pos()), fmt.Sprintf("the wildcard pattern is rewritten differently in the two modes: inline applies [%s], parameterized applies [%s] — the parameter is not the inline constant", inlineChain, paramChain))
+		r.bad(rule, "rewrite-chain", c.pos(dr.RenderParam.Pos()), fmt.Sprintf("the wildcard pattern is rewritten differently in the two modes: inline applies %s, parameterized applies %s — the parameter is not the inline constant", inlineChain, paramChain))
 	}
 	if rp.ok {
 		key := "param|" + fnName(dr.RenderParam) + "|rewrite"
@@ -724,12 +718,12 @@ func ruleNONINT(c *Ctx, r *Report) {
 	rows, _ := c.successSkeletons(dr.SerParam)
 	for _, row := range rows {
 		typ := "default"
-		for _, a := range row.P.Atoms {
+		for _, a := range row.Atoms {
 			if a.Kind == "type" && a.Pos && a.Subj == "$1" {
 				typ = a.Val
 			}
 		}
-		if typ == "*expr.Expression" || typ == "[]*expr.Expression" || typ == "*expr.RangeBoundary" || typ == "expr.Column" || hasAtom(row.P.Atoms, "$1==nil") {
+		if typ == "*expr.Expression" || typ == "[]*expr.Expression" || typ == "*expr.RangeBoundary" || typ == "expr.Column" || hasAtom(row.Atoms, "$1==nil") {
 			continue
 		}
 		v := "$1"
